@@ -27,7 +27,7 @@ Theorem C05_shape : forall cert_raw issuer_raw serial oid content time sig,
                        attr OID_attr_signingTime (add_asn1 T_UTCTIME time) ++
                        attr OID_attr_messageDigest (der_octets (sha256 content))) ++
       alg_id OID_rsa ++ der_octets sig))))).
-Proof. intros. unfold sign_pkcs7, attrs_body. cbn [flat_map]. rewrite app_nil_r. reflexivity. Qed.
+Proof. intros. unfold sign_pkcs7, signed_data, attrs_body. cbn [flat_map]. rewrite app_nil_r. reflexivity. Qed.
 
 (* what the signer is asked to sign: SHA-256 of the DER SET of those attributes *)
 Theorem C05_signed_bytes : forall oid content time,
@@ -43,15 +43,18 @@ Proof. exact int_decode_encode. Qed.
 
 (* the library's own parser recovers content type, content, certificate and attributes *)
 Theorem C05_parses : forall utctime_ok x509_ok cert_raw ib serial oid content t sig,
-  x509_ok cert_raw = true -> utctime_ok t = true ->
-  oid_rt oid -> blen (oid_encode oid) < 1000 ->
-  blen cert_raw < 1000000 -> blen ib < 100000 -> blen (int_encode serial) < 1000 ->
-  blen content < 1000000000 -> blen t < 1000 -> blen sig < 100000 ->
-  let embedded := negb (is_nilb content) && negb (oid_eqb oid OID_data) in
+  sign_side utctime_ok x509_ok cert_raw ib serial oid content t sig ->
   parse_pkcs7 utctime_ok x509_ok (sign_pkcs7 cert_raw (add_asn1 T_SEQUENCE ib) serial oid content t sig) =
-  Ret (mkP7 oid (if embedded then der_seq content else []) cert_raw OID_sha256
-         [signed_signer ib serial oid content t sig]).
+  Ret (signed_p7 cert_raw ib serial oid content t sig).
 Proof. exact parse_sign. Qed.
+(* the side conditions: the certificate parses, the time string is a UTCTime, the
+   OID is one whose encoding decodes to itself, and generous size bounds *)
+Theorem C05_side_conditions : forall utctime_ok x509_ok cert_raw ib serial oid content t sig,
+  sign_side utctime_ok x509_ok cert_raw ib serial oid content t sig <->
+  (x509_ok cert_raw = true /\ utctime_ok t = true /\ oid_rt oid /\ blen (oid_encode oid) < 1000 /\
+   blen cert_raw < 1000000 /\ blen ib < 100000 /\ blen (int_encode serial) < 1000 /\
+   blen content < 1000000000 /\ blen t < 1000 /\ blen sig < 100000).
+Proof. intros. reflexivity. Qed.
 
 (* ... and its own verification accepts the result for the signing certificate,
    given a correct RSA signature of the attribute SET *)
@@ -81,5 +84,6 @@ Print Assumptions C05_shape.
 Print Assumptions C05_signed_bytes.
 Print Assumptions C05_serial_encoding.
 Print Assumptions C05_parses.
+Print Assumptions C05_side_conditions.
 Print Assumptions C05_self_verifies.
 Print Assumptions C05_other_content.
